@@ -66,7 +66,7 @@ func freePorts(n int) ([]int, error) {
 	return ports, nil
 }
 
-func startProc(bin, dir, id string, join []string, grace time.Duration) (*proc, error) {
+func startProc(bin, dir, id string, join []string, grace time.Duration, extra ...string) (*proc, error) {
 	ports, err := freePorts(4)
 	if err != nil {
 		return nil, err
@@ -81,6 +81,7 @@ func startProc(bin, dir, id string, join []string, grace time.Duration) (*proc, 
 	if len(join) > 0 {
 		args = append(args, "--cluster.join", strings.Join(join, ","))
 	}
+	args = append(args, extra...)
 	lf, err := os.Create(p.log)
 	if err != nil {
 		return nil, err
@@ -283,10 +284,17 @@ type c18case struct {
 	Victim int    `json:"victim"`
 	Phase  string `json:"phase"`  // idle | upstreams | requests-in-flight | mid-shutdown
 	Signal string `json:"signal"` // term | kill
+	// Rebalance: upstream rebalancing enabled on every node (threshold 1.5, shed
+	// rate 0.5, min-conns 1)
+	Rebalance bool `json:"rebalance,omitempty"`
 }
 
 func (c c18case) String() string {
-	return fmt.Sprintf("%d nodes, victim n%d, phase %s, %s", c.Nodes, c.Victim, c.Phase, c.Signal)
+	s := fmt.Sprintf("%d nodes, victim n%d, phase %s, %s", c.Nodes, c.Victim, c.Phase, c.Signal)
+	if c.Rebalance {
+		s += ", rebalancing enabled"
+	}
+	return s
 }
 
 func runC18Case(bin, dir string, c c18case, sh *core.Shard) (sig, what, inconclusive string) {
@@ -305,7 +313,11 @@ func runC18Case(bin, dir string, c c18case, sh *core.Shard) (sig, what, inconclu
 		if i > 0 {
 			join = []string{ps[0].gossip}
 		}
-		p, err := startProc(bin, dir, fmt.Sprintf("n%d", i), join, grace)
+		var extra []string
+		if c.Rebalance {
+			extra = []string{"--upstream.rebalance.threshold", "1.5", "--upstream.rebalance.shed-rate", "0.5", "--upstream.rebalance.min-conns", "1"}
+		}
+		p, err := startProc(bin, dir, fmt.Sprintf("n%d", i), join, grace, extra...)
 		if err != nil {
 			return "", "", err.Error()
 		}
@@ -670,6 +682,27 @@ func runC18Case(bin, dir string, c c18case, sh *core.Shard) (sig, what, inconclu
 	if len(onVictim) > 0 {
 		sh.Count("listeners_reattached", int64(len(onVictim)))
 	}
+	if c.Rebalance && len(survivors) == 1 {
+		// a lone survivor has nobody to balance with: for the next 4 s (four
+		// rebalance periods) every re-attached upstream stays registered
+		want := len(ls)
+		t0 := time.Now()
+		for time.Since(t0) < 4*time.Second {
+			v, err := survivors[0].local()
+			if err != nil {
+				return "", "", "admin api: " + err.Error()
+			}
+			total := 0
+			for _, n := range v.Endpoints {
+				total += n
+			}
+			if total < want {
+				return "upstream-shed-by-lone-survivor", fmt.Sprintf("%s: the only surviving node registers %d of the %d re-attached upstreams %s after recovery (%v): it keeps closing their sessions although no other node is active", c, total, want, time.Since(t0).Round(10*time.Millisecond), v.Endpoints), ""
+			}
+			time.Sleep(25 * time.Millisecond)
+		}
+		sh.Count("lone_survivor_stability_windows", 1)
+	}
 	return "", "", ""
 }
 
@@ -693,9 +726,15 @@ func runC18(sh *core.Shard, a props.Args) {
 		for v := 0; v < n; v++ {
 			for _, ph := range []string{"idle", "upstreams", "requests-in-flight", "mid-shutdown"} {
 				for _, sg := range []string{"term", "kill"} {
-					cases = append(cases, c18case{n, v, ph, sg})
+					cases = append(cases, c18case{Nodes: n, Victim: v, Phase: ph, Signal: sg})
 				}
 			}
+		}
+	}
+	// rebalancing enabled: 2-node clusters, either node lost with upstreams connected
+	for v := 0; v < 2; v++ {
+		for _, sg := range []string{"term", "kill"} {
+			cases = append(cases, c18case{Nodes: 2, Victim: v, Phase: "upstreams", Signal: sg, Rebalance: true})
 		}
 	}
 	complete := true
@@ -750,12 +789,12 @@ func clip(s string, n int) string {
 func init() {
 	props.Register(&props.Prop{
 		ID: "C18", Level: "fault_enumeration", Parallel: 6, ExhaustiveWhenAll: true,
-		Rule: "clusters of 3 (thorough 3-5) real `piko server` processes started from the freshly built binary (thorough: race-built) with a 5 s grace period and 50 ms gossip interval; upstream listeners (client.Upstream, created agent-style with a cancelled connect context and with a live one) connect through a harness TCP load balancer so that a reconnect can land on a survivor; two endpoints live only on the victim, one only on a survivor, one on both; steady request traffic on every node. Enumerated completely: victim = every node x phase in {idle, upstreams connected, requests in flight (each grace/4 long), mid-shutdown (SIGTERM then SIGKILL / second SIGTERM)} x {SIGTERM, SIGKILL}. Oracle. Graceful: two seconds into a shutdown whose proxy is still draining 4 s requests the victim already holds no upstream (it stops advertising first); the process exits with status 0 within grace+10 s, and at the instant it has exited every survivor lists it as left or not at all; crash: every survivor flags it unreachable (60 s watchdog => inconclusive). Both: every listener keeps serving (a Serve/Accept that returned although nobody closed the listener is a violation), every endpoint is registered again on survivors exactly as often as the harness holds listeners, and once the survivors' tables mirror each other's own state every endpoint answers 200 through every surviving node; no survivor's remote_requests_total{node_id=victim} grows after the departure was known. Distinct = one per (size, victim, phase, signal).",
+		Rule: "clusters of 3 (thorough 3-5) real `piko server` processes started from the freshly built binary (thorough: race-built) with a 5 s grace period and 50 ms gossip interval; upstream listeners (client.Upstream, created agent-style with a cancelled connect context and with a live one) connect through a harness TCP load balancer so that a reconnect can land on a survivor; two endpoints live only on the victim, one only on a survivor, one on both; steady request traffic on every node. Enumerated completely: victim = every node x phase in {idle, upstreams connected, requests in flight (each grace/4 long), mid-shutdown (SIGTERM then SIGKILL / second SIGTERM)} x {SIGTERM, SIGKILL}. Oracle. Graceful: two seconds into a shutdown whose proxy is still draining 4 s requests the victim already holds no upstream (it stops advertising first); the process exits with status 0 within grace+10 s, and at the instant it has exited every survivor lists it as left or not at all; crash: every survivor flags it unreachable (60 s watchdog => inconclusive). Both: every listener keeps serving (a Serve/Accept that returned although nobody closed the listener is a violation), every endpoint is registered again on survivors exactly as often as the harness holds listeners, and once the survivors' tables mirror each other's own state every endpoint answers 200 through every surviving node; no survivor's remote_requests_total{node_id=victim} grows after the departure was known. Distinct = one per (size, victim, phase, signal). Four more cases run 2-node clusters with upstream rebalancing enabled (either node lost, term and kill, upstreams connected): after recovery the lone survivor keeps every re-attached upstream registered for four rebalance periods.",
 		Assumptions: []string{
 			"settling is decided from the admin API of the survivors; pure slowness beyond the 60 s watchdog is inconclusive, never a violation",
 			"'mid-shutdown' is approximated by a second signal 150 ms after SIGTERM",
 		},
-		RequireCounters: []string{"graceful_exits", "departure_seen_by_all_at_exit", "crash_flagged_unreachable_by_all", "listeners_reattached", "recovered_probes", "mid_drain_observations"},
+		RequireCounters: []string{"graceful_exits", "departure_seen_by_all_at_exit", "crash_flagged_unreachable_by_all", "listeners_reattached", "recovered_probes", "mid_drain_observations", "lone_survivor_stability_windows"},
 		Shards:          func(string) int { return 12 },
 		Timeout: func(tier string) time.Duration {
 			if tier == "thorough" {
